@@ -10,7 +10,8 @@ extern "C" {
 #endif
 
 /* budget kinds */
-enum { ABTMC_B_FREE = 0, ABTMC_B_P = 1, ABTMC_B_T = 2, ABTMC_B_E = 3 };
+enum { ABTMC_B_FREE = 0, ABTMC_B_P = 1, ABTMC_B_T = 2, ABTMC_B_E = 3,
+       ABTMC_B_PT = 4 /* internal: one preemption and one timer firing */ };
 
 typedef struct abtmc_driver {
     const char *name;     /* e.g. "c04_mutex" */
